@@ -45,6 +45,10 @@ def sgd_grid(full):
                             if n and (m[0] == 0 or d[0] != 0):
                                 continue      # the constructor rejects it
                             out.append(dict(lr=Q(*lr), mom=Q(*m), damp=Q(*d), wd=Q(*w), nesterov=n, maximize=mx))
+    # boundary values of the ranges: momentum 1, dampening 1, integer learning rate
+    out.append(dict(lr=Q(1, 2), mom=Q(1), damp=Q(0), wd=Q(0), nesterov=False, maximize=False))
+    out.append(dict(lr=Q(1, 2), mom=Q(1, 2), damp=Q(1), wd=Q(0), nesterov=False, maximize=False))
+    out.append(dict(lr=Q(1), mom=Q(1, 2), damp=Q(0), wd=Q(1, 4), nesterov=True, maximize=False))
     return out
 
 
@@ -58,6 +62,10 @@ def adam_grid(full):
                     for w in [(0, 1), (1, 4)]:
                         for mx in (False, True):
                             out.append(dict(lr=Q(*lr), b1=Q(*b1), b2=Q(*b2), eps=Q(*eps), wd=Q(*w), maximize=mx))
+    # boundary values: beta2 = 0 (the second moment is g^2: every gradient sequence has rational roots), beta1 = 0, eps = 0
+    out.append(dict(lr=Q(1, 2), b1=Q(1, 2), b2=Q(0), eps=Q(1, 8), wd=Q(0), maximize=False))
+    out.append(dict(lr=Q(1, 2), b1=Q(0), b2=Q(1, 2), eps=Q(1, 8), wd=Q(1, 4), maximize=False))
+    out.append(dict(lr=Q(1, 2), b1=Q(1, 2), b2=Q(0), eps=Q(0), wd=Q(0), maximize=True))
     return out
 
 
